@@ -119,11 +119,11 @@ def rand_prefix(rng, order):
     return bytes(b)
 
 
-def movie_case(rng, kind="movie", nmax=40):
-    order = rng.choice("<>")
-    prefix = rand_prefix(rng, order)
-    n = rng.choice([2, 2, 3, 4, 5, rng.randrange(2, nmax + 1)])
-    chunks = [(b"imap", b"")] + [(rand_fourcc(rng), rand_payload(rng)) for _ in range(n - 1)]
+def movie_case(rng, kind="movie", nmax=40, n=None, prefix=None, order=None, small=False):
+    order = order or rng.choice("<>")
+    prefix = rand_prefix(rng, order) if prefix is None else prefix
+    n = n or rng.choice([2, 2, 3, 4, 5, rng.randrange(2, nmax + 1)])
+    chunks = [(b"imap", b"")] + [(rand_fourcc(rng), bytes([rng.randrange(256)]) * rng.randrange(0, 4) if small else rand_payload(rng)) for _ in range(n - 1)]
     mmap_at = rng.randrange(1, n)
     extra = []
     for _ in range(rng.randrange(0, 3)):
@@ -135,7 +135,7 @@ def movie_case(rng, kind="movie", nmax=40):
     lines.append(f"riff parse {order} {P} {h}")
     expect.append(canon([chunkJ(order, cc, pl) for cc, pl in chunks]))
     # lookups: every chunk start, plus neighbours that are not chunk starts
-    qs = list(offs) + [o + d for o in offs[:6] for d in (-1, 1, 2, 8)] + [0, 11, -1, offs[-1] + 10 ** 6]
+    qs = (list(offs) if len(offs) <= 64 else offs[:20] + offs[250:262] + offs[-20:]) + [o + d for o in offs[:6] for d in (-1, 1, 2, 8)] + [0, 11, -1, offs[-1] + 10 ** 6]
     starts = set(offs)
     exp = []
     for q in qs:
@@ -281,12 +281,41 @@ def small_len_grid():
     return out
 
 
+def scale_cases(rng, tier):
+    """beyond the small bounds: movies with more than 256 / 512 chunks, standalone and embedded behind a prefix (an index kept per 256
+    chunks, a count held in a byte); projector prefixes around every multiple of 64 KiB up to 192 KiB (a search done in windows);
+    one chunk of 70 000 bytes (sizes that need the third byte)"""
+    out = []
+    for n, pre in ((300, b""), (300, b"MZ" + bytes(1000)), (600, b"MZ" + bytes(333)), (257, b"MZ" + bytes(40)), (256, b"")):
+        for order in ("<", ">") if not pre else ("<",):
+            out.append(movie_case(rng, kind="movie-many-chunks", n=n, prefix=pre, order=order, small=True))
+    hdr = b"XFIR\x10\x00\x00\x0039VM" + b"imap" + bytes(8)
+    marks = (1, 2, 3) if tier != "quick" else (1, 2)
+    for k in marks:
+        for d in range(-16, 6):
+            plen = k * 65536 + d
+            if plen < 2:
+                continue
+            pre = bytearray(b"MZ" + bytes(plen - 2))
+            pre[100:104] = b"XFIR"                       # one decoy far in front
+            data = bytes(pre) + hdr
+            out.append(Case(kind="locator-64k-marks", spec=dict(prefix_len=plen), lines=[f"riff locate {hx(data)}"], expect=[str(first_genuine(data))]))
+    big = [(b"imap", b""), (b"BIG1", bytes(i % 251 for i in range(70000))), (b"mmap", b""), (b"AFTR", b"tail")]
+    for order in "<>":
+        data, entries, offs, ch = build_movie(order, b"", big, 2)
+        h = hx(data)
+        out.append(Case(kind="movie-70000-byte-chunk", spec=dict(order=order), lines=[f"riff parse {order} 0 {h}", f"riff byoffs {order} 0 {h} {offs[3]},{offs[1]}"],
+                        expect=[canon([chunkJ(order, cc, pl) for cc, pl in ch]), canon([chunkJ(order, *ch[3]), chunkJ(order, *ch[1])])]))
+    return out
+
+
 def cases(rng, tier):
     n = dict(quick=(1500, 400, 400, 600), thorough=(40000, 6000, 6000, 8000), search=(20000, 3000, 3000, 0))[tier]
     out = fourcc_cases()
     out += small_len_grid()
     out += locator_cases(rng, n[2], exhaustive=True)
     out += [movie_case(rng) for _ in range(n[0])]
+    out += scale_cases(rng, tier)
     out += map_cases(rng, n[1])
     out += mutated_cases(rng, n[3])
     return out
